@@ -566,7 +566,9 @@ def signature(sig, meta):
     parts = sig.split(":")
     if parts[0] == "sibling-dropped":
         return "sibling-dropped:" + parts[1]
-    if parts[0] in ("read-raises", "read-crashes") and meta["attr"] in GEOM_ATTRS + ("geometry",):
+    if parts[0] in ("read-raises", "read-crashes") and any(
+            a in GEOM_ATTRS + ("geometry",) for a in meta["attr"].split("+")):
+        # (for a double fault: one of the two faults is in the geometry container)
         return parts[0] + ":geometry-container"
     return sig
 
@@ -683,8 +685,8 @@ def run(chk, model_ok):
         singles += enumerate_faults(bases[b], rng, chk.tier)
     randoms = []
     for b in use:
-        randoms += random_string_faults(bases[b], rng, 120 if thorough else 18)
-    doubles = double_faults(singles, rng, 1200 if thorough else 90)
+        randoms += random_string_faults(bases[b], rng, 220 if thorough else 18)
+    doubles = double_faults(singles, rng, 3200 if thorough else 90)
     corpus = [c for c in CORPUS if c["base"] in bases]
     cases = corpus + singles + randoms + doubles
     rows, crashed = run_cases(chk, cases, bases, nworkers=14)
